@@ -102,3 +102,20 @@ PROPS['C03'] = dict(
     technique='property-based testing (rapidcheck): round trip + reference-model enumeration differential; exhaustive coarse resolutions and seam neighbourhoods',
     assumptions=['reference model in engine/h3ref.hpp'],
 )
+
+PROPS['C02'] = dict(
+    src='props/C02.cpp', variants=['fast', 'asan'], level='exploration',
+    rule=('(lat, lng, res) triples: points 1e-1..1e-13 of the centre distance inside/outside cell edges and corners (cells from the stress mixture: pentagon disks, icosahedron edges, '
+          'face centres, poles, antimeridian, centre descendants), exact corners/edge points, icosahedron edges/vertices, poles (pi/2 - 10^-k), antimeridian (pi - 10^-k), the outer '
+          'longitude range, arbitrary finite doubles, invalid res / non-finite; complete stratum: all boundary vertices and edge midpoints of every pentagon and pentagon neighbour at all res '
+          'x offsets {0, +-1e-3, 1e-6, 1e-9, 1e-12}. non-trivial = the point lies within 1e-3 of the centre distance of an edge, is outside by rounding, or belongs to the '
+          'icosahedron/pole/antimeridian/outer-range/face-centre arms, or exercises the second/third clause; distinct by (lat bits, lng bits, res)'),
+    quick=dict(cases={'fast': 2_400_000, 'asan': 200_000}, enum={'fast': 4}),
+    thorough=dict(cases={'fast': 100_000_000, 'asan': 5_000_000}, enum={'fast': 4}),
+    strata=dict(quick=['vertices + edge midpoints of all pentagons and their neighbours, 16 res, 9 offsets'], thorough=['same']),
+    level_text=('containment of the generated point in cellToBoundary(latLngToCell(point)) decided in a gnomonic chart with binary128 arithmetic and the tolerance of the statement '
+                '(max(2e-12, 4e-15/cos lat)); validity and resolution of the result for all finite inputs; the two named error codes with an untouched output word'),
+    level_note='trusted: cellToBoundary / cellToLatLng as the geometric reference (as the statement prescribes; pinned independently by C03, C08, C19); libquadmath',
+    technique='property-based testing (rapidcheck) with a binary128 geometric containment oracle; edge/corner-targeted generators',
+    assumptions=['cellToBoundary is the geometric reference (statement)', 'binary128 arithmetic error (1e-30) is negligible against the 2e-12 tolerance'],
+)
